@@ -26,7 +26,7 @@
    streams must survive; that is what the theorems establish.
 
    The switch [fx] selects the code variant: [false] = the code as it is in
-   /repo today; [true] = the code with dev/patches/D11 applied (close what was
+   /repo today; [true] = the code with dev/patches/D19_C20_unclosed_on_failure.patch applied (close what was
    opened when a constructor / TdmsFile.open fails half-way). *)
 
 From Coq Require Import List Bool Arith.
